@@ -52,6 +52,7 @@ pub struct Lexer {
     possible_search_root: bool,
     after_open: bool,
     after_where: bool,
+    after_by: bool,
     after_operator: bool,
 }
 
@@ -65,6 +66,7 @@ impl Lexer {
             possible_search_root: false,
             after_open: false,
             after_where: false,
+            after_by: false,
             after_operator: false,
         }
     }
@@ -206,6 +208,7 @@ impl Lexer {
                 "from" => {
                     self.before_from = false;
                     self.after_where = false;
+                    self.after_by = false;
                     Some(Lexem::From)
                 }
                 "where" => {
@@ -216,7 +219,10 @@ impl Lexer {
                 "and" => Some(Lexem::And),
                 "not" if self.after_where => Some(Lexem::Not),
                 "order" => Some(Lexem::Order),
-                "by" => Some(Lexem::By),
+                "by" => {
+                    self.after_by = true;
+                    Some(Lexem::By)
+                }
                 "asc" => self.next_lexem(),
                 "desc" => Some(Lexem::DescendingOrder),
                 "limit" => Some(Lexem::Limit),
@@ -230,7 +236,10 @@ impl Lexer {
         };
 
         self.possible_search_root = matches!(lexem, Some(Lexem::From))
-                || (matches!(lexem, Some(Lexem::Comma)) && !self.before_from && !self.after_where);
+                || (matches!(lexem, Some(Lexem::Comma))
+                    && !self.before_from
+                    && !self.after_where
+                    && !self.after_by);
         self.after_operator = matches!(lexem, Some(Lexem::Operator(_)));
 
         lexem
@@ -238,9 +247,11 @@ impl Lexer {
 
     fn is_arithmetic_op_char(&self, c: char) -> bool {
         match c {
-            '+' | '-' => self.before_from || self.after_where,
+            '+' | '-' => self.before_from || self.after_where || self.after_by,
             '*' | '/' | '%' => {
-                (self.before_from || self.after_where) && !self.after_open && !self.after_operator
+                (self.before_from || self.after_where || self.after_by)
+                    && !self.after_open
+                    && !self.after_operator
             }
             _ => false,
         }
